@@ -190,9 +190,18 @@ var leanKeywords = map[string]bool{"at": true, "from": true, "end": true, "in": 
 	"example": true, "axiom": true, "opaque": true, "extends": true, "nomatch": true, "nofun": true, "suffices": true,
 	"obtain": true, "try": true, "catch": true, "finally": true, "unless": true, "break": true, "continue": true}
 
+// names the generated text itself uses: a Go local of the same name would shadow them
+var leanReserved = map[string]bool{"List": true, "Int": true, "Nat": true, "Option": true, "Bool": true, "Sum": true, "Loop": true,
+	"Unit": true, "Float": true, "Prod": true, "decide": true, "feq": true, "absS": true, "mn": true, "mx": true, "loopFrom": true,
+	"some": true, "none": true, "true": false, "false": false, "HasSqrt": true, "HasInf": true, "HasLibm": true, "HasOfInt": true,
+	"Arr2": true, "Arr3": true, "Arr4": true, "Arr8": true, "Arr12": true, "Arr16": true}
+
 func ident(n string) string {
 	if leanKeywords[n] || n == "α" {
 		return "«" + n + "»"
+	}
+	if leanReserved[n] {
+		return n + "_v"
 	}
 	if n == "_" {
 		return "_"
